@@ -511,9 +511,8 @@ def _userdict(d):
 # a falsy value means "not given" to the constructors)
 NON_MAPPINGS = [('int', 5), ('str', 'abc'), ('tuple', {'t': 'tuple',
                                                        'v': ['a']}),
-                ('pairs', {'t': 'list', 'v': [{'t': 'tuple',
-                                               'v': ['label', 'x']}]}),
-                ('userdict', {'t': 'exotic', 'v': 'userdict_ok'}),
+                # (mappings and pair lists with VALID keys are not listed: a
+                # library may accept any mapping; only keys are specified)
                 ('userdict_badkey', {'t': 'exotic', 'v': 'userdict_badkey'}),
                 ('float', 2.5), ('object', {'t': 'exotic', 'v': 'object'})]
 
@@ -594,6 +593,19 @@ class _IndexLike:
         return f'_IndexLike({self.v})'
 
 
+def _alias_or_copy(compound, which, operand, operand_model):
+    """The model of a compound's meta/visual taken over from its first
+    operand: the operand's own model object if the library stores the very
+    dict (what it does today), an independent copy if it stores a copy - the
+    properties do not say which."""
+    try:
+        if getattr(compound, which) is getattr(operand, which):
+            return operand_model
+    except Exception:
+        pass
+    return MDict(which, _vcopy(operand_model.d))
+
+
 def _strictly(v, ov, below):
     """``v`` strictly below (above) ``ov``, from both operands' side and
     with a margin far above conversion rounding."""
@@ -653,7 +665,26 @@ def draw_dict_items(rng, kind, nmax=3, arrays=False):
         k = rng.pick(['line', 'textrotate'])
         if k not in keys:
             keys.append(k)
-    return [[k, rng.pick(menu[k])] for k in keys]
+    def vals(k):
+        if arrays:
+            return menu[k]
+        # C17 speaks about keys: text-like entries get text (or None), so
+        # that a library which also checks value types is not offered
+        # anything it may refuse
+        plain = [v for v in menu[k]
+                 if k not in ('comment', 'label', 'name', 'text')
+                 or v is None or isinstance(v, str)]
+        return plain or menu[k]
+    return [[k, rng.pick(vals(k))] for k in keys]
+
+
+def _plain_vals(menu, k):
+    """Menu values of key ``k`` that any value-checking library would take:
+    text (or None) for the text-like keys."""
+    plain = [v for v in menu[k]
+             if k not in ('comment', 'label', 'name', 'text')
+             or v is None or isinstance(v, str)]
+    return plain or menu[k]
 
 
 def perturb_items(rng, kind, current):
@@ -844,6 +875,19 @@ def _field_problem(f, kind, v, u, PixCoord, SkyCoord):
 
 
 # ------------------------------------------------------------- machine
+class MenuRefused(Exception):
+    """The library refused a menu VALUE of a meta/visual entry (the
+    properties speak about keys; a library that also checks values is free to
+    do so): the op is skipped."""
+
+
+def _bd(kind, items):
+    try:
+        return build({'t': kind, 'v': items})
+    except (TypeError, ValueError) as exc:
+        raise MenuRefused(f'{kind}: {exc!r}')
+
+
 class ValidRejected(Exception):
     """The library refused to construct an object from in-domain values."""
 
@@ -955,6 +999,9 @@ class Machine:
             handler = getattr(self, 'op_' + op['op'])
             try:
                 handler(op, rng)
+            except MenuRefused:
+                self.stats['menu_value_refused'] = \
+                    self.stats.get('menu_value_refused', 0) + 1
             except ValidRejected as exc:
                 self.violation('A3-valid-rejected' if self.mode == 'c17'
                                else 'V0-valid-construction-raises',
@@ -1020,8 +1067,10 @@ class Machine:
             del params['angle']
         try:
             obj = getattr(regions, cls)(
-                **params, **extra, meta=build({'t': 'meta', 'v': meta}),
-                visual=build({'t': 'visual', 'v': visual}))
+                **params, **extra, meta=_bd('meta', meta),
+                visual=_bd('visual', visual))
+        except MenuRefused:
+            raise
         except Exception as exc:
             raise ValidRejected(cls, f'{cls}(**menu values {toks}) raised '
                                 f'{type(exc).__name__}: {str(exc)[:120]}')
@@ -1041,8 +1090,8 @@ class Machine:
         if rng.chance(0.5):
             meta = draw_dict_items(rng, 'meta')
             visual = draw_dict_items(rng, 'visual')
-            kw = {'meta': build({'t': 'meta', 'v': meta}),
-                  'visual': build({'t': 'visual', 'v': visual})}
+            kw = {'meta': _bd('meta', meta),
+                  'visual': _bd('visual', visual)}
             mm, mv = MDict('meta', items_to_model(meta)), \
                 MDict('visual', items_to_model(visual))
             if not meta:
@@ -1062,8 +1111,11 @@ class Machine:
             raise ValidRejected(cls, f'{cls}(valid operands, {sorted(kw)}) '
                                 f'raised {type(exc).__name__}: '
                                 f'{str(exc)[:120]}')
-        m = MRegion(cls, None, mm if mm is not None else m1.meta,
-                    mv if mv is not None else m1.visual, m1, m2, opname)
+        m = MRegion(cls, None,
+                    mm if mm is not None else _alias_or_copy(
+                        obj, 'meta', o1, m1.meta),
+                    mv if mv is not None else _alias_or_copy(
+                        obj, 'visual', o1, m1.visual), m1, m2, opname)
         return obj, m
 
     # ======================================================= C16 operations
@@ -1089,7 +1141,9 @@ class Machine:
         opname = rng.pick(['and_', 'or_', 'xor'])
         A, B = self.slots[a], self.slots[b]
         obj = getattr(operator, opname)(A.obj, B.obj)
-        m = MRegion(_cname(obj), None, A.model.meta, A.model.visual,
+        m = MRegion(_cname(obj), None,
+                    _alias_or_copy(obj, 'meta', A.obj, A.model.meta),
+                    _alias_or_copy(obj, 'visual', A.obj, A.model.visual),
                     A.model, B.model, opname)
         i = self.add_slot('region', obj, m)
         self.ev(slot=i, a=a, b=b, operator=opname)
@@ -1123,13 +1177,26 @@ class Machine:
         # V1b: no mutable object is reachable from both (whether or not the
         # harness knows how to edit it in place); what the caller passed in
         # **changes is shared by design
-        given = set()
+        given = {}
         for v in (given_objs or ()):
             _shared_ids(v, given)
-        both = (_shared_ids(S.obj, set()) & _shared_ids(obj, set())) - given
-        if both and not S.model.compound:
-            names = sorted({type(o).__name__ for o in
-                            _objs_by_id(obj, both)})
+        # (dicts id -> object: the objects stay alive while the ids are
+        # compared, so that the id of a temporary cannot be seen twice)
+        mine, theirs = _shared_ids(S.obj, {}), _shared_ids(obj, {})
+        both = (set(mine) & set(theirs)) - set(given)
+        names = sorted({type(theirs[k]).__name__ for k in both})
+        if not both:
+            # different array objects over the same memory
+            arrs1 = [o for k, o in mine.items()
+                     if isinstance(o, np.ndarray) and k not in given]
+            arrs2 = [o for k, o in theirs.items()
+                     if isinstance(o, np.ndarray) and k not in given]
+            for x in arrs1:
+                if any(x.size and y.size and np.shares_memory(x, y)
+                       for y in arrs2):
+                    names = [type(x).__name__ + ' memory']
+                    break
+        if names:
             self.violation('V1-shared-object', f'{how} of slot {src} ({cls}): '
                            f'the copy and the original share mutable '
                            f'object(s) of type {names}', cls=cls)
@@ -1153,7 +1220,7 @@ class Machine:
             if items is None or _deq(items_to_model(items),
                                      getattr(m, f).d):
                 items = draw_dict_items(rng, f)
-            val = build({'t': f, 'v': items})
+            val = _bd(f, items)
             new_dict = MDict(f, items_to_model(items))
         elif how == 'special':
             # values of an unusual but legal kind: an infinite coordinate,
@@ -1361,7 +1428,7 @@ class Machine:
                     items = perturb_items(rng, f, getattr(S.model, f).d)
                 if items is None:
                     items = draw_dict_items(rng, f)
-                changes[f] = build({'t': f, 'v': items})
+                changes[f] = _bd(f, items)
                 setattr(m, f, MDict(f, items_to_model(items)))
                 desc[f] = items
             elif f == 'operator':
@@ -1534,7 +1601,7 @@ class Machine:
             elif kind_choice == 'setdict':
                 f = rng.pick(['meta', 'visual'])
                 items = draw_dict_items(rng, f)
-                val = build({'t': f, 'v': items})
+                val = _bd(f, items)
                 if rng.chance(0.4):
                     val = dict(val)           # plain dict is converted
                 setattr(to, f, val)
@@ -1563,7 +1630,7 @@ class Machine:
                     e = 'set'
                 if e == 'set':
                     k = rng.pick(sorted(menu))
-                    v = rng.pick(menu[k])
+                    v = rng.pick(_plain_vals(menu, k))
                     d[k] = build(v)
                     md.d[k] = build(v)
                     what += f'{f}[{k!r}] = {v!r}'
@@ -1595,7 +1662,7 @@ class Machine:
                     what += f'{f}.clear()'
                 elif e == 'setdefault':
                     k = rng.pick(sorted(menu))
-                    v = rng.pick(menu[k])
+                    v = rng.pick(_plain_vals(menu, k))
                     d.setdefault(k, build(v))
                     md.d.setdefault(k, build(v))
                     what += f'{f}.setdefault({k!r}, {v!r})'
@@ -1650,6 +1717,7 @@ class Machine:
                 eps = (0.01 if kind in ('pixpos', 'pixverts') else 0.001) * \
                     (self.nmut + 1)
                 v = getattr(to, f)
+                seen0 = canon(v)
                 base = mk_value(kind, base_tok)
                 if kind == 'pixpos':
                     if rng.chance(0.5):
@@ -1683,6 +1751,15 @@ class Machine:
                     v[i] = new
                     what += f'{f}[{i}] = SkyCoord(base+{eps:.3f}) (in place)'
                 else:
+                    return
+                if canon(getattr(to, f)) == seen0:
+                    # the accessor handed out a copy: the edit did not reach
+                    # the region (which is the library's business) - and then
+                    # nothing at all may have changed
+                    self.ev(slot=a, what=what + ' [did not reach the region]')
+                    self.check_unchanged(set(), 'V1-independence',
+                                         f'in-place edit of a value handed '
+                                         f'out by slot {a}')
                     return
                 tm.tok[f] = ['mut', base_tok, self.nmut]
                 touched.add(id(tm))
@@ -2092,8 +2169,8 @@ class Machine:
         params = {f: valid_variant(rng, k, toks[f]) for f, k in fields}
         meta_items = draw_dict_items(rng, 'meta') if rng.chance(0.5) else []
         visual_items = draw_dict_items(rng, 'visual') if rng.chance(0.5) else []
-        meta = build({'t': 'meta', 'v': meta_items})
-        visual = build({'t': 'visual', 'v': visual_items})
+        meta = _bd('meta', meta_items)
+        visual = _bd('visual', visual_items)
         kw = dict(params)
         field = value = ''
         if invalid:
@@ -2124,8 +2201,7 @@ class Machine:
                      bad_key(rng, which): 1}
                 if rng.chance(0.25):
                     name, rec = rng.pick(NON_MAPPINGS)
-                    if name != 'pairs':       # (pairs are a documented form
-                        d = build_invalid(rec)  # of the Meta constructors)
+                    d = build_invalid(rec)
                 if which == 'meta':
                     meta = d
                 else:
@@ -2352,7 +2428,10 @@ class Machine:
                 ok_ = [k for k in (VISUAL_ONLY if f == 'meta' else META_ONLY)
                        if k in omenu]
                 k = rng.pick(ok_)
-                v = Other({k: build(rng.pick(omenu[k]))})
+                try:
+                    v = Other({k: build(rng.pick(omenu[k]))})
+                except (TypeError, ValueError) as exc:
+                    raise MenuRefused(repr(exc))
                 form = 'typed-other'
                 value = 'dict:otherkind'
             elif invalid:
@@ -2464,7 +2543,8 @@ class Machine:
             pos = rng.randint(0, len(items))     # valid keys before the bad one
             items.insert(pos, [badk, 1])
         if not items:
-            items = [[rng.pick(sorted(menu)), 1]]
+            k_ = rng.pick(sorted(menu))
+            items = [[k_, build(rng.pick(_plain_vals(menu, k_)))]]
         if entry in ('update_kw', 'ctor_kw', 'update_map_kw', 'ctor_map_kw'):
             if any(not (isinstance(k, str) and k.isidentifier())
                    for k, _ in items):
@@ -2508,7 +2588,7 @@ class Machine:
                 try:
                     arg = C(dict(items))
                     break
-                except KeyError:
+                except ALLOWED_EXC:
                     continue
             if arg is None:
                 arg = dict(items)
@@ -2548,7 +2628,7 @@ class Machine:
             fn = lambda: Cls(**dict(items))  # noqa
             desc = f'{cls}(**{[k for k, _ in items]})'
         elif entry == 'fromkeys':
-            fn = lambda: Cls.fromkeys([k for k, _ in items], 1)  # noqa
+            fn = lambda: Cls.fromkeys([k for k, _ in items])  # noqa
             desc = f'{cls}.fromkeys({[k for k, _ in items]})'
         what = f'{cls} {desc}'
         before_d = dict(d) if d is not None else {}
@@ -2807,8 +2887,9 @@ class Machine:
                     return s.model
             return MRegion(_cname(o))
         m = MRegion(cls, None, None, None, model_of(r1), model_of(r2), 'op')
-        if not kw and isinstance(m.r1, MRegion):
-            m.meta, m.visual = m.r1.meta, m.r1.visual
+        if not kw and isinstance(m.r1, MRegion) and out != 'rejected':
+            m.meta = _alias_or_copy(res, 'meta', r1, m.r1.meta)
+            m.visual = _alias_or_copy(res, 'visual', r1, m.r1.visual)
         if out == 'wrongly-accepted':
             m.tainted.update(['region1', 'region2', 'operator', 'meta',
                               'visual'])
@@ -2961,7 +3042,7 @@ class Machine:
         obj = self.slots[a].obj
         before = canon(obj)
         try:
-            for f in getattr(obj, '_params', ()) + ('meta', 'visual'):
+            for f in list(getattr(obj, '_params', ())) + ['meta', 'visual']:
                 getattr(obj, f)
             repr(obj), str(obj), obj == obj
         except Exception as exc:
@@ -3197,26 +3278,26 @@ def _shared_ids(o, acc, depth=0):
     if depth > 6 or id(o) in acc:
         return acc
     if isinstance(o, Region):
-        acc.add(id(o))
+        acc[id(o)] = o
         for k in list(getattr(o, '_params', ()) or ()) + ['meta', 'visual']:
             try:
                 _shared_ids(getattr(o, k), acc, depth + 1)
             except Exception:
                 pass
     elif isinstance(o, (dict, list)):
-        acc.add(id(o))
+        acc[id(o)] = o
         for v in (o.values() if isinstance(o, dict) else o):
             _shared_ids(v, acc, depth + 1)
     elif isinstance(o, tuple):
         for v in o:
             _shared_ids(v, acc, depth + 1)
     elif isinstance(o, PixCoord):
-        acc.add(id(o))
+        acc[id(o)] = o
         for v in (o.x, o.y):
             if isinstance(v, np.ndarray):
-                acc.add(id(v))
+                acc[id(v)] = v
     elif isinstance(o, (SkyCoord, np.ndarray)):
-        acc.add(id(o))
+        acc[id(o)] = o
     return acc
 
 
